@@ -69,6 +69,7 @@ type RH struct {
 	Mtx    sync.Mutex
 	Vals   []directive.Value
 	Idle   bool
+	IdleCh chan struct{} // if non-nil, receives one token per MarkIdle(true)
 	nextID uint32
 }
 
@@ -86,7 +87,18 @@ func (h *RH) CountValues(allResolvers bool) int {
 	return len(h.Vals)
 }
 func (h *RH) ClearValues() []uint32                                       { return nil }
-func (h *RH) MarkIdle(idle bool)                                          { h.Idle = idle }
+func (h *RH) MarkIdle(idle bool) {
+	h.Mtx.Lock()
+	h.Idle = idle
+	ch := h.IdleCh
+	h.Mtx.Unlock()
+	if idle && ch != nil {
+		select {
+		case ch <- struct{}{}:
+		default:
+		}
+	}
+}
 func (h *RH) AddValueRemovedCallback(id uint32, cb func()) func()         { return func() {} }
 func (h *RH) AddResolverRemovedCallback(cb func()) func()                 { return func() {} }
 func (h *RH) AddResolver(res directive.Resolver, cb func()) func()        { return func() {} }
